@@ -25,10 +25,10 @@ class C09(Spec):
     harness_env = {"GOMAXPROCS": "1"}
     shrink_sep = " ; "
     rule = ("one case = one timed scenario under the Go runtime's virtual clock: K in 1..8, 1-4 producer goroutines x <= 20 sends "
-            "(SendCallback with 4 result shapes, nil handler, SendTask(user task), SendTask(nil), double Do) at scripted instants, one "
+            "(SendCallback with handler results of 4 scalar and 13 typed shapes — typed nil pointer/map/slice/chan/func, pointer, struct, array, string, error-typed, slice, map, each without/with err; nil handler, SendTask(user task), SendTask(nil), double Do) at scripted instants, one "
             "consumer with a scripted delay per task, optional close (mid-run, exactly at a send instant, early) and optional consumer "
             "stop. compared: every send's begin/return instant and branch, receive sequence with instants, handler executions, Get2 "
-            "values and the instants they unblock, late Get2, number of 'queue is full' log lines, tasks left in C. The driver runs the "
+            "values rendered with dynamic type / pointer identity and the instants they unblock, Get1 vs Get2, late Get2, panics inside Do, number of 'queue is full' log lines, tasks left in C. The driver runs the "
             "same scenario as a timed execution of Got.Model.TaskQ (every transition through TaskQ.step); where the model is "
             "nondeterministic (select with both branches ready) the branch is taken from the observation (trace inclusion). "
             "non-trivial = at least one send blocked on a full buffer or a close happened with sends after it")
@@ -99,14 +99,17 @@ class C09(Spec):
                 return ("dropped-open", "send %s returned at %d while the queue was open (close=%s) but the task never came out of C" % (t, s["tr"], close))
             if close is not None and s["tr"] > max(close, s["tb"]):
                 return ("blocked-after-close", "send %s begun at %d returned only at %d; closed at %d" % (t, s["tb"], s["tr"], close))
-        # Get2 = handler's pair, and not before the execution
+        # Get1/Get2 = EXACTLY what the handler returned (dynamic type, value, pointer identity), not before the execution.
+        # X entries are rendered by the handler itself at its return; G/H by the clients from what Get1/Get2 gave them.
         execs = {}
         for w in sec.get("X", []):
-            t, rest = w.split("@")
-            at, val = rest.split("=")
+            t, rest = w.split("@", 1)
+            if rest.endswith("!panic"):
+                return ("do-panic", "Do panicked while the consumer executed task %s (at %s)" % (t, rest[:-6]))
+            at, val = rest.split("=", 1)
             execs.setdefault(t, []).append((int(at), val))
         for w in sec.get("G", []):
-            t, rest = w.split("@")
+            t, rest = w.split("@", 1)
             if t not in sends:
                 return ("malformed", "G entry for unknown send")
             kind = sends[t]["kind"]
@@ -118,23 +121,21 @@ class C09(Spec):
                 if t in execs:
                     return ("get-blocked", "Get2 of %s never returned although the task was executed at %d" % (t, execs[t][0][0]))
                 continue
-            at, val = rest.split("=")
+            at, val = rest.split("=", 1)
             at = int(at)
             if t not in execs:
                 return ("get-early", "Get2 of %s returned %s at %d but the consumer never executed the task" % (t, val, at))
-            p, i = t.split(".")
-            exp = pair_of(int(kind[2:]), 1000 * int(p) + int(i) + 1)
             e_at, e_val = execs[t][0]
             if at < e_at:
                 return ("get-early", "Get2 of %s returned at %d, before the handler finished at %d" % (t, at, e_at))
-            if e_val != exp:
-                return ("malformed", "handler of %s returned %s, scripted %s" % (t, e_val, exp))
-            if val != exp and not (kind.startswith("cd") and len(execs[t]) > 1 and val == execs[t][1][1]):
-                return ("get-wrong", "Get2 of %s returned %s, the handler returned %s" % (t, val, exp))
+            if "~get1:" in val:
+                return ("get1-differs", "Get1 of %s returned %s, Get2 returned %s" % (t, val.split("~get1:")[1], val.split("~get1:")[0]))
+            if val != e_val and not (kind.startswith("cd") and len(execs[t]) > 1 and val == execs[t][1][1]):
+                return ("get-wrong", "Get2 of %s returned %s, the handler returned %s" % (t, val, e_val))
             if at != e_at:
                 return ("get-late", "Get2 of %s returned at %d, the handler finished at %d" % (t, at, e_at))
         for w in sec.get("H", []):
-            t, val = w.split("=")
+            t, val = w.split("=", 1)
             if val == "-" or t not in execs:
                 continue
             if val != execs[t][-1][1]:
